@@ -116,7 +116,10 @@ class ListHandler(logging.Handler):
     def emit(self, record):
         if record.levelno >= logging.WARNING:
             try:
-                self.records.append((record.levelname, record.name, record.getMessage()))
+                msg = record.getMessage()
+                if record.exc_info and record.exc_info[1] is not None:
+                    msg += f' :: {record.exc_info[1]!r}'
+                self.records.append((record.levelname, record.name, msg))
             except Exception:  # noqa
                 self.records.append((record.levelname, record.name, str(record.msg)))
 
